@@ -225,6 +225,21 @@ fn gen_c01(tier: &str, rng: &mut Rng, emit: &mut dyn FnMut(Op)) {
             }
         }
     }
+    // each candidate's version is the text after ITS OWN last '-' (the bases may nest)
+    for (p, a, b2) in [("font-adobe-[0-9]*", "font-adobe-1.1", "font-adobe-100dpi-1.0"), ("foo-[0-9]*", "foo-1.1", "foo-100x-1.0"),
+        ("foo-[0-9]*", "foo-2", "foo-3rc-1"), ("{foo,foo-9}-[0-9]*", "foo-5", "foo-9-1"), ("foo-*", "foo-1", "foo-bar-0.5"), ("foo-*", "foo-1", "foo-2-0.5")] {
+        emit(Op::s("pattern.best", &[p, a, b2]));
+        emit(Op::s("pattern.best", &[p, b2, a]));
+    }
+    // a bound is as long as it is: components beyond the first KiB count like any other
+    for n in [511usize, 512, 600, 2000] {
+        let pre = "0.".repeat(n);
+        for (o, b, v) in [(">=", "5", "4"), ("<", "5", "4"), (">", "4", "5"), ("<=", "4", "5"), (">=", "4", "4")] {
+            emit(Op::s("dewey.match", &[&format!("pkg{}{}{}", o, pre, b), &format!("pkg-{}{}", pre, v)]));
+            emit(Op::s("pattern.match", &[&format!("pkg{}{}{}", o, pre, b), &format!("pkg-{}{}", pre, v)]));
+        }
+        emit(Op::s("dewey.match", &[&format!("pkg>{}4<={}5", pre, pre), &format!("pkg-{}5", pre)]));
+    }
     bound_extension_family(emit);
     // ignored characters inside a candidate's version (NUL, '+', '~', blanks, non-ASCII) are
     // skipped and what FOLLOWS them still counts — through best_match as well
@@ -381,6 +396,40 @@ fn gen_c02(tier: &str, rng: &mut Rng, emit: &mut dyn FnMut(Op)) {
             }
         }
     }
+    // "nb<digits>" in the MIDDLE of a version: the revision is those digits, the text goes on;
+    // bounds with the same components, so that the revision decides
+    for (v, comps_same) in [("1.0nb3.1", vec!["1.0.1nb3", "1.0.1nb2", "1.0.1nb4", "1.0.1"]), ("2.0nb4a", vec!["2.0a", "2.0anb4", "2.0anb5", "2.0anb3"]),
+        ("1nb2_1", vec!["1_1nb2", "1_1", "1_1nb3"]), ("1.0nb+5", vec!["1.0", "1.0nb5", "1.0nb1"]), ("1nb2nb3", vec!["1nb3", "1nb2", "1"])] {
+        for b in &comps_same {
+            for o in opw {
+                let p = format!("pkg{}{}", o, b);
+                emit(Op::s("dewey.match", &[&p, &format!("pkg-{}", v)]));
+                emit(Op::s("pattern.match", &[&p, &format!("pkg-{}", v)]));
+                let q = format!("pkg{}{}", o, v);
+                emit(Op::s("dewey.match", &[&q, &format!("pkg-{}", b)]));
+            }
+        }
+    }
+    // digits are the ten ASCII digits: every other numeric character is ignored text
+    for ch in ["\u{663}", "\u{ff11}", "\u{b2}", "\u{bd}", "\u{2167}", "\u{6f3}", "\u{96f}", "\u{1d7d9}"] {
+        for v in [format!("1.{}", ch), format!("1{}", ch), ch.to_string(), format!("{}1", ch), format!("1.0nb{}", ch), format!("1.0nb2{}", ch)] {
+            emit(Op::s("dewey.comps", &[&v]));
+            for (o, b) in [("<=", "1"), (">=", "2"), (">", "1"), ("<", "1.0nb3"), (">=", "1.0nb2")] {
+                emit(Op::s("dewey.match", &[&format!("pkg{}{}", o, b), &format!("pkg-{}", v)]));
+                emit(Op::s("pattern.match", &[&format!("pkg{}{}", o, b), &format!("pkg-{}", v)]));
+                emit(Op::s("dewey.match", &[&format!("pkg{}{}", o, v), &format!("pkg-{}", b)]));
+            }
+        }
+    }
+    // a bound is as long as it is: components beyond the first KiB count like any other
+    for n in [300usize, 511, 512, 600, 2000] {
+        let pre = "0.".repeat(n);
+        for (o, b, v) in [(">=", "5", "4"), ("<", "5", "4"), (">", "4", "5"), ("<=", "4", "5"), (">=", "4", "4")] {
+            emit(Op::s("dewey.match", &[&format!("pkg{}{}{}", o, pre, b), &format!("pkg-{}{}", pre, v)]));
+            emit(Op::s("pattern.match", &[&format!("pkg{}{}{}", o, pre, b), &format!("pkg-{}{}", pre, v)]));
+        }
+        emit(Op::s("dewey.match", &[&format!("pkg>{}4<={}5", pre, pre), &format!("pkg-{}5", pre)]));
+    }
     // a package name spelled exactly like the pattern is just another name
     for p in &pats {
         emit(Op::s("dewey.match", &[p, p]));
@@ -429,7 +478,7 @@ fn gen_c18(tier: &str, rng: &mut Rng, emit: &mut dyn FnMut(Op)) {
         emit(Op::s("summary.pkgsplit", &[n]));
         emit(Op::s("pkgname.dewey", &[n]));
     }
-    let extra = ["nb+2", "nb-3", "1nb", "1.0nb99999999999999999999", "x-1nb2nb", "x-nb5alpha", "x-1nNb3", "x-1nb3-", "-", "--", "a-b-c-1.0nb3"];
+    let extra = ["mktool-1.3-2", "a-1-1nb2", "p5-x-1-2", "x-11-1", "nb+2", "nb-3", "1nb", "1.0nb99999999999999999999", "x-1nb2nb", "x-nb5alpha", "x-1nNb3", "x-1nb3-", "-", "--", "a-b-c-1.0nb3"];
     for n in extra {
         emit(Op::s("pkgname.new", &[n]));
         emit(Op::s("summary.pkgsplit", &[n]));
@@ -457,12 +506,12 @@ fn gen_c18(tier: &str, rng: &mut Rng, emit: &mut dyn FnMut(Op)) {
         for w in spell {
             for k in revs {
                 for j in revs {
-                    let o = *rng.pick(&[">", ">=", "<", "<="]);
-                    emit(Op::s("dewey.match", &[&format!("pkg{}{}{}", o, w, j), &format!("pkg-{}{}", v, k)]));
+                    for o2 in [">", ">=", "<", "<="] {
+                        emit(Op::s("dewey.match", &[&format!("pkg{}{}{}", o2, w, j), &format!("pkg-{}{}", v, k)]));
+                    }
                     if thorough {
-                        for o2 in [">", ">=", "<", "<="] {
-                            emit(Op::s("dewey.match", &[&format!("pkg{}{}{}", o2, w, j), &format!("pkg-{}{}", v, k)]));
-                        }
+                        let o = *rng.pick(&[">", ">=", "<", "<="]);
+                        emit(Op::s("dewey.match", &[&format!("pkg>=0{}{}{}", o, w, j), &format!("pkg-{}{}", v, k)]));
                     }
                 }
             }
@@ -605,6 +654,12 @@ fn gen_c19(tier: &str, rng: &mut Rng, emit: &mut dyn FnMut(Op)) {
     }
     emit(Op::s("depend.new", &[":"]));
     emit(Op::s("depend.new", &[""]));
+    // a comparison pattern is valid whether or not any version can satisfy it; every ':' counts
+    for pat in ["pkg>=2<1", "pkg>1<1", "pkg>=1.0<1.0rc1", "pkg>=1<=1", "pkg-[0-9:]*", "a[:]b", "pkg-[[:digit:]]*"] {
+        for q in ["cat/pkg", "../../cat/pkg", "cat/p[k:]g"] {
+            emit(Op::s("depend.new", &[&format!("{}:{}", pat, q)]));
+        }
+    }
     // a brace pattern is valid as soon as its braces balance, whatever its expansions compile to
     for pat in ["{mysql,mariadb}-client>=8.0>8.1", "{a,b}-[0-9", "mysql-client-{[0-9]***,8.0}", "{a,b}>=1", "{a,{b,c}}-[0-9]*"] {
         for q in ["databases/mysql80-client", "../../databases/mysql80-client", "x"] {
@@ -743,6 +798,11 @@ fn gen_c04(tier: &str, rng: &mut Rng, emit: &mut dyn FnMut(Op)) {
         ("{x,y}-{x,y}", vec!["x-y", "y-x", "x-x", "y-y"]),
         ("{,a}{,a}b", vec!["b", "ab", "aab", "aaab"]),
         ("{a,b}c{a,b}c{a,b}", vec!["acbca", "bcacb", "acacb", "acaca"]),
+        // a group INSIDE an alternative of a leading group; a '*' on either side of a brace
+        ("{ap{22,24}-php,php}-[0-9]*", vec!["php-8.3.1", "ap22-php-8", "ap24-php-8", "ap-php-8", "x-1"]),
+        ("{a{b,c}d,e}f", vec!["ef", "abdf", "acdf", "adf"]),
+        ("foo-{*,1.0}*", vec!["foo-2.0", "foo-1.0", "foo-1.0nb1", "foo-"]),
+        ("{*,a}*-1", vec!["x-1", "a-1", "ab-1"]),
         // the "any PKGREVISION" idiom is a brace group like any other
         ("foo-1.0{,nb*}", vec!["foo-1.0", "foo-1.0nb1", "foo-1.0nb1nb2", "foo-1.0nbxnb", "foo-1.0.1"]),
         ("foo-1.0{,nb[0-9]*}", vec!["foo-1.0nb1nb2", "foo-1.0nb", "foo-1.0nb12"]),
@@ -1035,6 +1095,18 @@ fn gen_c05(tier: &str, rng: &mut Rng, emit: &mut dyn FnMut(Op)) {
             emit(Op::s("glob.match", &[q, n]));
         }
     }
+    // ':' and '/' are ordinary pattern text; a leading '.' of the name is an ordinary character
+    for (q, ns) in [("foo-1.0:../../devel/foo", vec!["foo-1.0", "foo-1.0:../../devel/foo"]), ("foo-[0-9]*:../../devel/foo", vec!["foo-1.0", "foo-1:../../devel/foo"]),
+        ("*-1.0", vec![".foo-1.0", "foo-1.0", ".-1.0"]), ("*", vec![".", "..", ".a", ""]), ("[!a]b*", vec![".b-1", "xb-1", "ab-1"]),
+        ("?foo-1.0", vec![".foo-1.0", "xfoo-1.0"]), ("[.]x*", vec![".x1", "ax"]), ("a/*", vec!["a/.b", "a/b"]), ("a/?b", vec!["a/.b"])] {
+        emit(Op::s("pattern.new", &[q]));
+        for n in ns {
+            emit(Op::s("pattern.match", &[q, n]));
+            if q.contains(|c| "*?[".contains(c)) {
+                emit(Op::s("glob.match", &[q, n]));
+            }
+        }
+    }
     // nine and more '*' (also as set members) are still a well-formed glob
     for (q, ns) in [("*a*b*c*d*e*f*g*h*", vec!["abcdefgh", "xaxbxcxdxexfxgxhx", "abcdefg"]), ("lib*-*.*.*.*.*.*.*.*", vec!["libx-1.2.3.4.5.6.7.8", "libx-1.2.3"]),
         ("[*][*][*]-*-[*][*][*]-*-?*", vec!["***-a-***-b-c", "***-a-**-b-c"]), ("*-*-*-*-*-*-*-*-*-*", vec!["1-2-3-4-5-6-7-8-9-0", "1-2-3"])] {
@@ -1105,7 +1177,7 @@ fn gen_c06(tier: &str, rng: &mut Rng, emit: &mut dyn FnMut(Op)) {
         "1\0.5", "1.0\0nb3", "2\0rc1", "1.0\0", "1.0nb0", "1.0nb000", "1.2",
         // "nb" is followed by DIGITS: a sign is an ignored character and the digits after it are a
         // component; an earlier nb<N> stays in force until a later one replaces it
-        "1.0nb+5", "1.0nb-3", "1.0.1", "1nb3.0", "1nb3.0nb1", "1nb3.0nb3", "1nb3_0nb2", "1nb3.0nb4",
+        "v2.0", "V3", "v2", "v", "2v1", "1.0nb+5", "1.0nb-3", "1.0.1", "1nb3.0", "1nb3.0nb1", "1nb3.0nb3", "1nb3_0nb2", "1nb3.0nb4",
         // a version may START with a modifier (below zero), next to the largest numbers
         "alpha1", "rc1", "beta", "pre2", "9223372036854775806", "9223372036854775805", "9223372036854775804",
         // every '.' is a component of its own: empty fields between, before and after dots
@@ -1145,6 +1217,19 @@ fn gen_c06(tier: &str, rng: &mut Rng, emit: &mut dyn FnMut(Op)) {
         for v2 in vers {
             emit(Op::s("pattern.best", &["foo-[0-9.]*", &format!("foo-{}", v1), &format!("foo-{}", v2)]));
         }
+    }
+    // a leading letter is version text like any other (ignored by the tokeniser, never stripped)
+    for v1 in ["v2.0", "V3", "v2", "v", "2v1", "v1.0nb2", "r5"] {
+        for v2 in ["1", "1.0", "2", "2.0", "2.5", "3", "0.5", "", "10"] {
+            emit(Op::s("pattern.best", &["foo-*", &format!("foo-{}", v1), &format!("foo-{}", v2)]));
+            emit(Op::s("pattern.best", &["foo-*", &format!("foo-{}", v2), &format!("foo-{}", v1)]));
+        }
+    }
+    // each candidate is split at ITS OWN last '-': the second candidate's base may extend the first's
+    for (p, a, b2) in [("font-adobe-[0-9]*", "font-adobe-1.1", "font-adobe-100dpi-1.0"), ("foo-[0-9]*", "foo-1.1", "foo-100x-1.0"),
+        ("foo-[0-9]*", "foo-2", "foo-3rc-1"), ("{foo,foo-9}-[0-9]*", "foo-5", "foo-9-1"), ("foo-*", "foo-1", "foo-bar-0.5"), ("foo-*", "foo-1", "foo-2-0.5")] {
+        emit(Op::s("pattern.best", &[p, a, b2]));
+        emit(Op::s("pattern.best", &[p, b2, a]));
     }
     // a glob's '*' takes further hyphens too: such a candidate matches and takes part in the ranking
     for p in ["foo-[0-9]*", "{foo,bar}-[0-9]*", "foo-*", "foo-[0-9]*-*"] {
@@ -1189,6 +1274,20 @@ pub fn gen(id: &str, tier: &str, rng: &mut Rng, emit: &mut dyn FnMut(Op)) {
                 for n in ns {
                     emit(Op::s("pattern.match", &[p, n]));
                     emit(Op::s("pattern.best", &[p, n, n]));
+                }
+            }
+            // characters with the Unicode Numeric / Digit property that are not ASCII digits, in
+            // every position of a version, a bound, a base and a dependency
+            for ch in ["\u{b2}", "\u{bd}", "\u{663}", "\u{2460}", "\u{ff11}", "\u{2167}", "\u{1d7d9}", "\u{96f}", "\u{3007}"] {
+                for v in [format!("1{}", ch), format!("1.0{}", ch), ch.to_string(), format!("{}1", ch), format!("1.0nb{}", ch), format!("1.0nb2{}", ch)] {
+                    emit(Op::s("dewey.comps", &[&v]));
+                    emit(Op::s("pattern.new", &[&format!("pkg>={}", v)]));
+                    emit(Op::s("dewey.new", &[&format!("pkg>={}<{}", v, v)]));
+                    emit(Op::s("pattern.match", &["pkg>=1.0", &format!("pkg-{}", v)]));
+                    emit(Op::s("pattern.match", &[&format!("pkg{}>=1", ch), &format!("pkg{}-{}", ch, v)]));
+                    emit(Op::s("pattern.best", &["pkg-[0-9]*", &format!("pkg-{}", v), "pkg-1.0"]));
+                    emit(Op::s("pkgname.new", &[&format!("pkg-{}", v)]));
+                    emit(Op::s("depend.new", &[&format!("pkg>={}:../../cat/pkg", v)]));
                 }
             }
             // mutations of every other generator's ops (and the ops themselves, sampled)
